@@ -1143,7 +1143,8 @@ Qed.
 
 Lemma eps_pairs_err h epoch : forall ps seen acc e, eps_pairs h epoch ps seen acc = Err e -> e = EKey.
 Proof.
-  induction ps as [|[c1 c2] rest IH]; intros seen acc e H; simpl in H; [discriminate|].
+  induction ps as [|[a b] rest IH]; intros seen acc e H; simpl in H; [discriminate|].
+  set (c1 := Z.min a b) in *. set (c2 := Z.max a b) in *.
   destruct (mem_pair (c1, c2) seen); [eauto|].
   destruct (lookup c1 (h_results h)) as [row1|]; [|inv H; reflexivity].
   destruct (lookup c2 (h_results h)) as [row2|]; [|inv H; reflexivity].
@@ -2815,4 +2816,296 @@ Lemma update_epsilon_spec rs orc rs2 : update_epsilon rs orc = Ok rs2 ->
 Proof.
   unfold update_epsilon. intro H. destruct (noisy_distances rs orc) as [[[|d ds]|e]|]; inv H; auto.
   right. exists d, ds. auto.
+Qed.
+
+(* ==== milestones of running trials: own rung level or max_t, and never beyond the cap =============== *)
+Definition ML_entry (cfg : config) (rs : rsys) (ms : Z) (rf : option Z) : Prop :=
+  (In ms (map r_level (rs_rungs rs)) \/ ms = c_max_t cfg) /\ (rf <> None -> (ms <= eff_max cfg rs)%Z).
+Definition ML_rs (cfg : config) (rs : rsys) : Prop :=
+  forall t ms rf, lookup t (rs_running rs) = Some (ms, rf) -> ML_entry cfg rs ms rf.
+Definition ML_inv (cfg : config) (st : state) : Prop :=
+  forall s rs, nth_error (st_sys st) s = Some rs -> ML_rs cfg rs.
+
+Lemma ML_rs_mono cfg rs rs' : ML_rs cfg rs -> rs_running rs' = rs_running rs ->
+  map r_level (rs_rungs rs') = map r_level (rs_rungs rs) -> (eff_max cfg rs <= eff_max cfg rs')%Z -> ML_rs cfg rs'.
+Proof.
+  intros H Hr Hl Hc t ms rf Hlk. rewrite Hr in Hlk. destruct (H _ _ _ Hlk) as [H1 H2].
+  split; [rewrite Hl; exact H1|]. intro Hn. specialize (H2 Hn). lia.
+Qed.
+
+Lemma ML_rs_remove cfg rs t : ML_rs cfg rs -> ML_rs cfg (rs_on_task_remove rs t).
+Proof.
+  intros H t' ms rf Hlk. simpl in Hlk. destruct (Z.eq_dec t' t) as [->|Hne].
+  - rewrite lookup_remove_eq in Hlk. discriminate.
+  - rewrite lookup_remove_neq in Hlk by exact Hne. exact (H _ _ _ Hlk).
+Qed.
+
+Lemma ML_rs_add cfg rs t ms rf : ML_rs cfg rs -> ML_entry cfg rs ms rf ->
+  ML_rs cfg (set_running rs (update t (ms, rf) (rs_running rs))).
+Proof.
+  intros H He t' ms' rf' Hlk. simpl in Hlk. destruct (Z.eq_dec t' t) as [->|Hne].
+  - rewrite lookup_update_eq in Hlk. inv Hlk. exact He.
+  - rewrite lookup_update_neq in Hlk by exact Hne. exact (H _ _ _ Hlk).
+Qed.
+
+Lemma ML_set cfg st sid rs rs' task active off : ML_inv cfg st -> nth_error (st_sys st) sid = Some rs ->
+  ML_rs cfg rs' -> ML_inv cfg (mkS (set_nth sid rs' (st_sys st)) task active off).
+Proof.
+  intros H Hn Hrs s r Hs. simpl in Hs.
+  destruct (nth_set_nth_cases _ _ _ _ _ _ Hn Hs) as [[-> ->]|[_ Hs']]; [exact Hrs|eauto].
+Qed.
+
+Lemma ML_cleanup cfg st t d : ML_inv cfg st -> ML_inv cfg (cleanup cfg st t d).
+Proof.
+  intros H s r Hs. destruct (cleanup_sys cfg st t d) as [[_ Heq]|[br [rs [_ [Hn Heq]]]]]; rewrite Heq in Hs; [eauto|].
+  destruct (nth_set_nth_cases _ _ _ _ _ _ Hn Hs) as [[-> ->]|[_ Hs']]; [|eauto].
+  apply ML_rs_remove. eauto.
+Qed.
+
+Lemma eff_max_same cfg rs rs' : rs_cap rs' = rs_cap rs -> eff_max cfg rs' = eff_max cfg rs.
+Proof. unfold eff_max. intros ->. reflexivity. Qed.
+
+Lemma next_above_own cfg rungs j : In (next_above cfg rungs j) (map r_level rungs) \/ next_above cfg rungs j = c_max_t cfg.
+Proof.
+  unfold next_above. destruct j as [|j']; [right; reflexivity|].
+  destruct (nth_error rungs j') as [r|] eqn:E; [|right; reflexivity]. left. apply in_map. eapply nth_error_In; eauto.
+Qed.
+
+Lemma first_milestone_own cfg rs skip :
+  In (first_milestone cfg rs skip) (map r_level (rs_rungs rs)) \/ first_milestone cfg rs skip = c_max_t cfg.
+Proof.
+  unfold first_milestone. destruct (skip <? length (rs_rungs rs))%nat; [|right; reflexivity].
+  destruct (nth_error (rs_rungs rs) (length (rs_rungs rs) - (skip + 1))) as [r|] eqn:E; [|right; reflexivity].
+  left. apply in_map. eapply nth_error_In; eauto.
+Qed.
+
+Lemma ML_step cfg evs st os ev st' o : cfg_wf cfg -> run cfg evs = Ok (st, os) -> ML_inv cfg st ->
+  step cfg st ev = Ok (st', o) -> ML_inv cfg st'.
+Proof.
+  intros Hcfg Hrun HM Hstep. assert (Hstep0 := Hstep).
+  destruct ev as [n br b got|t|t r m c eps|t|t|t]; simpl in Hstep.
+  - (* suggest *)
+    apply suggest_shape in Hstep as [rs [rs1 [p [Hn [Hs Hp]]]]].
+    assert (Hwf := reach_wf _ _ _ _ _ _ Hrun Hn).
+    assert (Hwf1 : rs_wf cfg (static_levels cfg (fst (sys_of cfg br))) rs1)
+      by (eapply rs_trans_wf; [eapply T_sched; eauto|exact Hwf]).
+    assert (Hsh := Hs). apply sched_shape in Hsh as [Hrun1 [_ [Hcap1 _]]].
+    assert (HM1 : ML_rs cfg rs1).
+    { apply (ML_rs_mono cfg rs); [eauto|exact Hrun1| |rewrite (eff_max_same _ _ _ Hcap1); lia].
+      destruct Hwf as [-> _]. destruct Hwf1 as [-> _]. reflexivity. }
+    destruct p as [[[[j t] rf] ms]|].
+    + destruct Hp as [Hlt [ti [Hl [Hd [-> Ho]]]]]. eapply ML_set; eauto.
+      apply ML_rs_add; [exact HM1|]. split.
+      * (* the target is the next rung level of this rung system, or max_t *)
+        subst o. destruct (eligibility_sound _ _ _ _ _ _ _ _ _ _ _ _ _ _ _ Hcfg Hrun Hstep0)
+          as [rs0 [r0 [pos [e [_ [En [_ [_ [_ [_ [_ [_ [_ [_ [Hnxt _]]]]]]]]]]]]]]].
+        assert (rs0 = rs) by congruence. subst rs0. rewrite Hnxt.
+        destruct Hwf as [Hl0 _]. destruct Hwf1 as [Hl1 _]. rewrite Hl1, <- Hl0. apply next_above_own.
+      * intros _. subst o. rewrite (eff_max_same _ _ _ Hcap1).
+        eapply resume_below_cap; eauto.
+    + destruct Hp as [[_ [_ ->]]|[_ [Hl [_ ->]]]].
+      * eapply ML_set; eauto.
+      * eapply ML_set; eauto. unfold rs_on_task_add_new. apply ML_rs_add; [exact HM1|].
+        split; [apply first_milestone_own|intro Hc; congruence].
+  - inv Hstep. exact HM.
+  - (* report *)
+    destruct (on_trial_result cfg st t r m c eps) as [[st1 d]|] eqn:E; [|discriminate]. inv Hstep.
+    apply on_trial_result_shape in E as [_ [ti [Hl [[_ [-> _]]|[Hd [br [rs [rs' [info [off' [lur' [Ht [Hn [Hout Hcases]]]]]]]]]]]]]];
+      [exact HM|].
+    assert (Hwf := reach_wf _ _ _ _ _ _ Hrun Hn).
+    assert (Htr : rs_trans cfg rs rs').
+    { unfold report_outcome in Hout. destruct (r <? c_max_t cfg)%Z; [eapply T_report; eauto|inv Hout; constructor]. }
+    assert (Hwf' := rs_trans_wf _ _ _ _ Htr Hwf).
+    assert (Hcapinv := reach_cap_inv _ _ _ _ _ _ Hcfg Hrun Hn).
+    destruct (rs_trans_cap cfg _ rs rs' Hcfg Htr Hwf Hcapinv) as [_ Hcap].
+    assert (Hrun' : rs_running rs' = rs_running rs).
+    { unfold report_outcome in Hout. destruct (r <? c_max_t cfg)%Z; [|inv Hout; reflexivity].
+      apply report_shape in Hout as [rs1 [Hp [_ [Hr' _]]]]. apply promo_report_shape in Hp as [Hr1 _]. congruence. }
+    assert (HM' : ML_rs cfg rs').
+    { apply (ML_rs_mono cfg rs); [eauto|exact Hrun'| |].
+      - destruct Hwf as [-> _]. destruct Hwf' as [-> _]. reflexivity.
+      - unfold eff_max. destruct (c_variant cfg); lia. }
+    destruct Hcases as [[_ [-> _]]|[[_ [_ [-> _]]]|[_ [_ [-> _]]]]].
+    + eapply ML_set; eauto.
+    + eapply ML_set; eauto.
+    + apply ML_cleanup. eapply ML_set; eauto.
+  - inv Hstep. apply ML_cleanup. exact HM.
+  - destruct (lookup t (st_active st)); [|discriminate]. inv Hstep. apply ML_cleanup. exact HM.
+  - inv Hstep. apply ML_cleanup. exact HM.
+Qed.
+
+Lemma ML_init cfg : ML_inv cfg (init cfg).
+Proof.
+  intros s rs Hs t ms rf Hl. apply nth_error_map_seq in Hs as [-> _]. simpl in Hl. discriminate.
+Qed.
+
+(* every milestone a running trial has been given is a rung level of its own rung system or max_t, and a
+   resumed trial's milestone never exceeds the cap in force NOW (PASHA: current_max_t) *)
+Lemma reach_ML cfg : cfg_wf cfg -> forall evs st os, run cfg evs = Ok (st, os) -> ML_inv cfg st.
+Proof.
+  intro Hcfg. apply reach_ind; [apply ML_init|]. intros. eapply ML_step; eauto.
+Qed.
+
+(* a new trial of the lowest bracket (skip_rungs = 0: bracket 0, or one rung system per bracket) is never
+   told to run beyond the cap either *)
+Lemma start_below_cap cfg evs st os n br b got st' t mra rs :
+  cfg_wf cfg -> run cfg evs = Ok (st, os) -> suggest cfg st n br b got = Ok (st', OStart t mra) ->
+  snd (sys_of cfg br) = 0%nat -> nth_error (st_sys st) (fst (sys_of cfg br)) = Some rs ->
+  (first_milestone cfg rs 0 <= eff_max cfg rs)%Z /\
+  mra = (if c_mra cfg then Some (first_milestone cfg rs 0) else None).
+Proof.
+  intros Hcfg Hrun H Hskip Hn.
+  apply suggest_shape in H as [rs0 [rs1 [p [Hn0 [Hs Hp]]]]]. assert (rs0 = rs) by congruence. subst rs0.
+  destruct p as [[[[j t0] rf] ms]|]; [destruct Hp as [_ [ti [_ [_ [_ Ho]]]]]; discriminate|].
+  destruct Hp as [[_ [Ho _]]|[_ [_ [Ho _]]]]; [discriminate|]. inv Ho. rewrite Hskip.
+  assert (Hwf := reach_wf _ _ _ _ _ _ Hrun Hn).
+  assert (Hwf1 : rs_wf cfg (static_levels cfg (fst (sys_of cfg br))) rs1)
+    by (eapply rs_trans_wf; [eapply T_sched; eauto|exact Hwf]).
+  assert (Hfm : first_milestone cfg rs1 0 = first_milestone cfg rs 0).
+  { unfold first_milestone. destruct Hwf as [Hl _]. destruct Hwf1 as [Hl1 _].
+    assert (Hlen : length (rs_rungs rs1) = length (rs_rungs rs)).
+    { rewrite <- (map_length r_level (rs_rungs rs1)), Hl1, <- Hl, map_length. reflexivity. }
+    rewrite Hlen. destruct (0 <? length (rs_rungs rs))%nat; [|reflexivity].
+    assert (Hnth : forall k, option_map r_level (nth_error (rs_rungs rs1) k) = option_map r_level (nth_error (rs_rungs rs) k)).
+    { intro k. rewrite <- !nth_error_map, Hl1, <- Hl. reflexivity. }
+    specialize (Hnth (length (rs_rungs rs) - (0 + 1))%nat).
+    destruct (nth_error (rs_rungs rs1) _), (nth_error (rs_rungs rs) _); simpl in Hnth; congruence. }
+  rewrite Hfm. split; [|reflexivity].
+  assert (Hlev : is_level cfg (first_milestone cfg rs 0)) by (eapply first_milestone_level; eauto).
+  unfold eff_max. destruct (c_variant cfg); try (apply is_level_le; assumption).
+  destruct (cap_level _ _ (reach_cap_inv _ _ _ _ _ _ Hcfg Hrun Hn)) as [Hc|Hc];
+    [rewrite Hc; apply is_level_le; assumption|].
+  unfold rs_levels in Hc. apply in_rev in Hc. apply In_nth_error in Hc as [k Hk].
+  destruct Hwf as [Hl _].
+  assert (Hdesc : StronglySorted Z.gt (map r_level (rs_rungs rs))) by (rewrite Hl; apply static_levels_desc; exact Hcfg).
+  assert (Hklt : (k < length (rs_rungs rs))%nat) by (rewrite <- (map_length r_level); apply nth_error_Some; congruence).
+  unfold first_milestone. assert (E : (0 <? length (rs_rungs rs))%nat = true) by (apply Nat.ltb_lt; lia). rewrite E.
+  destruct (nth_error (rs_rungs rs) (length (rs_rungs rs) - (0 + 1))) as [r|] eqn:Er.
+  - assert (Hj : nth_error (map r_level (rs_rungs rs)) (length (rs_rungs rs) - (0 + 1)) = Some (r_level r))
+      by (rewrite nth_error_map, Er; reflexivity).
+    destruct (Nat.eq_dec k (length (rs_rungs rs) - (0 + 1))) as [->|Hne]; [rewrite Hk in Hj; inv Hj; lia|].
+    assert (r_level r < rs_cap rs)%Z; [|lia]. eapply (ss_gt_nth _ k (length (rs_rungs rs) - (0 + 1))); eauto. lia.
+  - apply nth_error_None in Er. lia.
+Qed.
+
+(* ==== a report at the milestone is recorded at that rung of the trial's rung system =================== *)
+Lemma rung_pos_none level : forall l i, rung_pos level l i = None -> ~ In level (map r_level l).
+Proof.
+  induction l as [|x l IH]; intros i H; simpl in *; [tauto|].
+  destruct (r_level x =? level)%Z eqn:E; [discriminate|]. intros [Heq|Hin]; [lia|eapply IH; eauto].
+Qed.
+
+Lemma promo_registers cfg rs t ms rf m c rs' info :
+  lookup t (rs_running rs) = Some (ms, rf) -> In ms (map r_level (rs_rungs rs)) ->
+  promo_on_task_report cfg rs t ms m c = Ok (rs', info) ->
+  exists p rg, nth_error (rs_rungs rs) p = Some rg /\ r_level rg = ms /\ in_rung t rg = false /\
+    rs_rungs rs' = set_nth p (added_rung (c_mode cfg) rg (mkE t m c false)) (rs_rungs rs).
+Proof.
+  intros Hl Hin H. unfold promo_on_task_report in H. rewrite Hl in H.
+  assert (E1 : (ms <=? ms)%Z = true) by lia. assert (E2 : negb (ms =? ms)%Z = false) by (rewrite Z.eqb_refl; reflexivity).
+  rewrite E1, E2 in H.
+  destruct (rung_pos ms (rs_rungs rs) 0) as [p|] eqn:Ep; [|exfalso; eapply rung_pos_none; eauto].
+  destruct (nth_error (rs_rungs rs) p) as [rg|] eqn:En; [|discriminate].
+  destruct (in_rung t rg) eqn:Ein; [discriminate|]. inv H. simpl.
+  apply rung_pos_spec in Ep as [k [rg' [Hk [Hn Hlv]]]]. simpl in Hk. subst k.
+  assert (rg' = rg) by congruence. subst rg'. exists p, rg. auto.
+Qed.
+
+Lemma In_set_nth_self {A} : forall (l : list A) n x y, nth_error l n = Some y -> In x (set_nth n x l).
+Proof. induction l as [|a l IH]; intros [|n] x y H; simpl in *; try discriminate; [left; reflexivity|right; eauto]. Qed.
+
+Lemma report_recorded cfg evs st os t r m c eps ti br rs rf st' d :
+  cfg_wf cfg -> run cfg evs = Ok (st, os) ->
+  lookup t (st_active st) = Some ti -> ti_dec ti = CONTINUE -> lookup t (st_task st) = Some br ->
+  nth_error (st_sys st) (fst (sys_of cfg br)) = Some rs -> lookup t (rs_running rs) = Some (r, rf) ->
+  (1 <= r < c_max_t cfg)%Z ->
+  on_trial_result cfg st t r m c eps = Ok (st', d) ->
+  d = PAUSE /\
+  exists rs' rg, nth_error (st_sys st') (fst (sys_of cfg br)) = Some rs' /\ In rg (rs_rungs rs') /\
+    r_level rg = r /\ In (mkE t m (total_cost cfg st t c) false) (r_data rg).
+Proof.
+  intros Hcfg Hrun Ha Hd Ht Hn Hl Hr H.
+  (* the decision *)
+  pose proof (pause_at_milestone_step cfg evs st os t r m c eps ti br rs r rf Hrun Ha Hd Ht Hn Hl) as Hp.
+  rewrite H in Hp. destruct Hp as [_ Hdec]; [lia|].
+  unfold expected_decision in Hdec. assert (E1 : (c_max_t cfg <=? r)%Z = false) by lia. rewrite E1, Z.eqb_refl in Hdec.
+  split; [exact Hdec|].
+  (* the milestone is a rung level of this rung system *)
+  destruct (reach_ML cfg Hcfg _ _ _ Hrun _ _ Hn _ _ _ Hl) as [[Hin|Hmax] _]; [|lia].
+  apply on_trial_result_shape in H as [_ [ti' [Ha' [[Hd' _]|[_ [br' [rs0 [rs' [info [off' [lur' [Ht' [Hn' [Hout Hcases]]]]]]]]]]]]]];
+    [congruence|].
+  assert (br' = br) by congruence. subst br'. assert (rs0 = rs) by congruence. subst rs0.
+  unfold report_outcome in Hout. assert (E2 : (r <? c_max_t cfg)%Z = true) by lia. rewrite E2 in Hout.
+  apply report_shape in Hout as [rs1 [Hpromo [Hrungs _]]].
+  destruct (promo_registers _ _ _ _ _ _ _ _ _ Hl Hin Hpromo) as [p [rg [Hnp [Hlv [_ Hr1]]]]].
+  assert (Hentry : exists rg', In rg' (rs_rungs rs') /\ r_level rg' = r /\
+                     In (mkE t m (total_cost cfg st t c) false) (r_data rg')).
+  { exists (added_rung (c_mode cfg) rg (mkE t m (total_cost cfg st t c) false)).
+    split; [rewrite Hrungs, Hr1; eapply In_set_nth_self; eauto|]. split; [exact Hlv|].
+    simpl. apply In_insert. left. reflexivity. }
+  destruct Hentry as [rg' [Hin' [Hlv' He]]].
+  assert (Hfin : forall stx, st_sys stx = set_nth (fst (sys_of cfg br)) rs' (st_sys st) ->
+            exists rs'' rg'', nth_error (st_sys stx) (fst (sys_of cfg br)) = Some rs'' /\ In rg'' (rs_rungs rs'') /\
+              r_level rg'' = r /\ In (mkE t m (total_cost cfg st t c) false) (r_data rg'')).
+  { intros stx Hx. exists rs', rg'. rewrite Hx, (nth_error_set_nth_eq _ _ _ _ Hn). auto. }
+  destruct Hcases as [[_ [-> Hdd]]|[[_ [_ [-> Hdd]]]|[_ [_ [-> _]]]]]; try (subst d; discriminate).
+  (* paused: _cleanup_trial keeps the rungs *)
+  match goal with |- context [cleanup cfg ?s1 t d] => set (st1 := s1) end.
+  destruct (cleanup_sys cfg st1 t d) as [[_ Heq]|[br2 [rs2 [Ht2 [Hn2 Heq]]]]].
+  - apply Hfin. rewrite Heq. reflexivity.
+  - simpl in Ht2. assert (br2 = br) by congruence. subst br2.
+    simpl in Hn2. rewrite (nth_error_set_nth_eq _ _ _ _ Hn) in Hn2. inv Hn2.
+    exists (rs_on_task_remove rs2 t), rg'. rewrite Heq. simpl.
+    split; [|auto].
+    apply (nth_error_set_nth_eq _ _ _ rs2). apply (nth_error_set_nth_eq _ _ _ _ Hn).
+Qed.
+
+(* ==== the Boundary class in plain arithmetic =========================================================== *)
+Lemma within_classes md tol m c :
+  (within md tol m c = Boundary <-> Qabs (m - c) <= tol * Qabs c) /\
+  (within md tol m c = Yes <-> (~ (Qabs (m - c) <= tol * Qabs c)) /\ better_le md m c = true) /\
+  (within md tol m c = No <-> (~ (Qabs (m - c) <= tol * Qabs c)) /\ better_le md m c = false).
+Proof.
+  unfold within, near. destruct (Qleb (Qabs (m - c)) (tol * Qabs c)) eqn:E.
+  - apply Qleb_le in E. split; [tauto|]. split; (split; [discriminate|intros [Hn _]; contradiction]).
+  - assert (Hn : ~ (Qabs (m - c) <= tol * Qabs c)) by (intro Hc; apply Qleb_le in Hc; congruence).
+    split; [split; [destruct (better_le md m c); discriminate|intro; contradiction]|].
+    destruct (better_le md m c); split; split; try discriminate; try tauto; intros [_ ?]; discriminate.
+Qed.
+
+(* with tolerance 0 the Boundary class is exactly the ties with the cutoff *)
+Lemma within_tol0 md m c : within md 0 m c = Boundary <-> m == c.
+Proof.
+  rewrite (proj1 (within_classes md 0 m c)). split; intro H.
+  - assert (H0 : Qabs (m - c) <= 0) by lra. pose proof (Qabs_nonneg (m - c)) as Hp.
+    assert (H1 : m - c <= Qabs (m - c)) by apply Qle_Qabs.
+    assert (H2 : - (m - c) <= Qabs (m - c)) by (rewrite <- Qabs_opp; apply Qle_Qabs).
+    lra.
+  - assert (E : m - c == 0) by lra. rewrite E. simpl. lra.
+Qed.
+
+(* a resumed trial's metric in arithmetic terms: no worse than the cutoff, up to tol * |cutoff| *)
+Lemma within_not_no md tol m c : 0 <= tol -> within md tol m c <> No ->
+  match md with Min => m <= c + tol * Qabs c | Max => c - tol * Qabs c <= m end.
+Proof.
+  intros Ht H. destruct (within_classes md tol m c) as [HB [HY HN]].
+  pose proof (Qabs_nonneg c) as Hc.
+  destruct (within md tol m c) eqn:Ew; [| congruence |].
+  - destruct (proj1 HY eq_refl) as [_ Hle]. destruct md; simpl in Hle; apply Qleb_le in Hle; nra.
+  - pose proof (proj1 HB eq_refl) as Hb.
+    assert (H1 : m - c <= Qabs (m - c)) by apply Qle_Qabs.
+    assert (H2 : - (m - c) <= Qabs (m - c)) by (rewrite <- Qabs_opp; apply Qle_Qabs).
+    destruct md; lra.
+Qed.
+
+Lemma rule_ok_arith cfg r pos e : c_variant cfg <> VCost -> 0 <= c_tol cfg -> rule_ok cfg r pos e ->
+  exists c, quantile (c_mode cfg) r = Some c /\
+    match c_mode cfg with
+    | Min => e_metric e <= c + c_tol cfg * Qabs c
+    | Max => c - c_tol cfg * Qabs c <= e_metric e
+    end.
+Proof.
+  intros Hv Ht H. unfold rule_ok in H.
+  destruct (c_variant cfg) eqn:Ev; try congruence; destruct H as [c [Hq Hw]]; exists c; (split; [exact Hq|]);
+    apply within_not_no; assumption.
 Qed.
